@@ -617,6 +617,10 @@ func checkProgress(vd *Verdict, v *prioView) {
 			"terminated-with-undelivered-item": true, "graceful-stop-not-finished": true, "read-item-lost": true,
 		})
 
+		if len(vd.Viol) == 0 {
+			checkServedAtMarks(vd, v)
+		}
+
 		return
 	}
 
@@ -1505,4 +1509,73 @@ func shrinkPrio(sc *PrioSc) []any {
 	}
 
 	return out
+}
+
+// checkServedAtMarks is "when nothing is in flight and some input has data, an item is
+// delivered without any release being needed", judged at the marks of a scenario whose
+// handlers release everything by themselves: at a mark at which nothing is in flight, no
+// item that was written to a registered, unremoved input long enough ago (the same settle
+// time as every other mark rule) may still be waiting.
+func checkServedAtMarks(vd *Verdict, v *prioView) {
+	sc := v.sc
+	settle := int64(40+4*sc.H) * max(1, sc.Unit)
+
+	for _, m := range v.marks {
+		if total, _ := v.inflightAt(m.Seq); total != 0 {
+			vd.probe("mark-with-items-in-flight")
+			continue
+		}
+
+		removed := map[int]bool{}
+		for _, op := range v.removes {
+			if op.call <= m.Seq {
+				for i, in := range sc.Inputs {
+					if in.Prio == op.prio {
+						removed[i] = true // conservatively: any input of that priority
+					}
+				}
+			}
+		}
+
+		// a channel whose priority was registered again was replaced: no longer read
+		for _, op := range v.adds {
+			if op.call <= m.Seq {
+				for i, in := range sc.Inputs {
+					if in.Prio == op.prio && i != op.input {
+						removed[i] = true
+					}
+				}
+			}
+		}
+
+		for _, r := range v.res.Hist {
+			if r.Seq > m.Seq {
+				break
+			}
+
+			if r.Kind != simrt.KSend || r.Lib {
+				continue
+			}
+
+			var i int
+			if _, err := fmt.Sscanf(r.ChName, "in[%d]", &i); err != nil || removed[i] || sc.Inputs[i].Late {
+				continue
+			}
+
+			if m.T-r.T < settle {
+				continue
+			}
+
+			if at, ok := v.deliveredAt(int(r.Val)); ok && at <= m.Seq {
+				continue
+			}
+
+			vd.fail("stuck-with-nothing-in-flight", "item %d was written to input %d (priority %d) %dns before the mark at t=%dns and is still waiting there although nothing is in flight and every handler releases (%s)",
+				r.Val, i, sc.Inputs[i].Prio, m.T-r.T, m.T, stuck(v.res))
+
+			return
+		}
+
+		vd.probe("mark-everything-served")
+	}
 }
